@@ -284,4 +284,214 @@ theorem reset_refines (n L now : Nat) (a : Arr Cnt) (h : List (Nat × Cnt)) (rel
     · exact rel.fz s hs hlt
     · rfl
 
+/-! ## lifting the refinement to breakers, breaker lists and systems -/
+
+abbrev Hist := List (Nat × Cnt)
+
+structure RelB (now : Nat) (b1 : Brk (Arr Cnt)) (b2 : Brk Hist) : Prop where
+  id : b1.id = b2.id
+  rule : b1.rule = b2.rule
+  st : b1.st = b2.st
+  nr : b1.nextRetry = b2.nextRetry
+  cp : b1.curProbe = b2.curProbe
+  w : R b1.rule.n b1.rule.L now b1.w b2.w
+
+theorem RelB.mono {now now' : Nat} {b1 : Brk (Arr Cnt)} {b2 : Brk Hist} (r : RelB now b1 b2) (hle : now ≤ now') :
+    RelB now' b1 b2 := ⟨r.id, r.rule, r.st, r.nr, r.cp, r.w.mono hle⟩
+
+theorem tryPass_rel {now : Nat} {b1 : Brk (Arr Cnt)} {b2 : Brk Hist} (rel : RelB now b1 b2) (t : Nat) :
+    (tryPass b1 t).2 = (tryPass b2 t).2 ∧ RelB now (tryPass b1 t).1 (tryPass b2 t).1 := by
+  obtain ⟨id1, rule1, st1, nr1, cp1, a⟩ := b1
+  obtain ⟨id2, rule2, st2, nr2, cp2, h⟩ := b2
+  obtain ⟨e1, e2, e3, e4, e5, hw⟩ := rel
+  dsimp only at e1 e2 e3 e4 e5 hw
+  subst e1 e2 e3 e4 e5
+  unfold tryPass
+  cases st1 <;> dsimp only
+  · exact ⟨rfl, ⟨rfl, rfl, rfl, rfl, rfl, hw⟩⟩
+  · exact ⟨rfl, ⟨rfl, rfl, rfl, rfl, rfl, hw⟩⟩
+  · split_ifs
+    · exact ⟨rfl, ⟨rfl, rfl, rfl, rfl, rfl, hw⟩⟩
+    · exact ⟨rfl, ⟨rfl, rfl, rfl, rfl, rfl, hw⟩⟩
+
+theorem onComplete_rel {now0 : Nat} {b1 : Brk (Arr Cnt)} {b2 : Brk Hist} (rel : RelB now0 b1 b2)
+    (now rt : Nat) (err : Bool) (hle : now0 ≤ now) (h0 : 0 < now) :
+    (onComplete laOps b1 now rt err).2 = (onComplete histOps b2 now rt err).2 ∧
+      RelB now (onComplete laOps b1 now rt err).1 (onComplete histOps b2 now rt err).1 := by
+  obtain ⟨id1, rule1, st1, nr1, cp1, a⟩ := b1
+  obtain ⟨id2, rule2, st2, nr2, cp2, h⟩ := b2
+  obtain ⟨e1, e2, e3, e4, e5, hw⟩ := rel
+  dsimp only at e1 e2 e3 e4 e5 hw
+  subst e1 e2 e3 e4 e5
+  obtain ⟨a', tot, hr1, hr2, hR⟩ := record_refines rule1 now0 now a h
+    { bad := if isBad rule1 rt err = true then 1 else 0, total := 1 } hw hle h0
+  unfold onComplete
+  dsimp only
+  rw [hr1, hr2]
+  dsimp only
+  generalize ({ bad := if isBad rule1 rt err = true then 1 else 0, total := 1 } : Cnt) = x at hR ⊢
+  cases st1 <;> dsimp only <;> (try split_ifs) <;>
+    first
+    | exact ⟨rfl, ⟨rfl, rfl, rfl, rfl, rfl, hR⟩⟩
+    | exact ⟨rfl, ⟨rfl, rfl, rfl, rfl, rfl, reset_refines _ _ _ _ _ hR h0⟩⟩
+
+/-- relation between the `(breaker, hooked)` lists that `checkPass` returns -/
+def RelP (now : Nat) (p : Brk (Arr Cnt) × Bool) (q : Brk Hist × Bool) : Prop := RelB now p.1 q.1 ∧ p.2 = q.2
+
+theorem checkPass_rel (res : String) (now t : Nat) {l1 : List (Brk (Arr Cnt))} {l2 : List (Brk Hist)}
+    (h : List.Forall₂ (RelB now) l1 l2) :
+    (checkPass res t l1).2 = (checkPass res t l2).2 ∧
+      List.Forall₂ (RelP now) (checkPass res t l1).1 (checkPass res t l2).1 := by
+  induction h with
+  | nil => exact ⟨rfl, List.Forall₂.nil⟩
+  | @cons b1 b2 r1 r2 hb hr ih =>
+    have hres : b2.rule.res = b1.rule.res := by rw [hb.rule]
+    obtain ⟨ht2, htr⟩ := tryPass_rel hb t
+    have ht_pass : (tryPass b2 t).2.1 = (tryPass b1 t).2.1 := by rw [ht2]
+    have ht_trs : (tryPass b2 t).2.2.1 = (tryPass b1 t).2.2.1 := by rw [ht2]
+    have ht_hook : (tryPass b2 t).2.2.2 = (tryPass b1 t).2.2.2 := by rw [ht2]
+    have hid : b2.id = b1.id := hb.id.symm
+    simp only [checkPass]
+    rw [hres, ht_pass, ht_trs, ht_hook, hid]
+    by_cases hr0 : b1.rule.res = res
+    · rw [if_pos hr0, if_pos hr0]
+      by_cases hp : (tryPass b1 t).2.1 = true
+      · rw [if_pos hp, if_pos hp]
+        refine ⟨?_, List.Forall₂.cons ⟨htr, rfl⟩ ih.2⟩
+        dsimp only
+        rw [ih.1]
+      · rw [if_neg hp, if_neg hp]
+        refine ⟨rfl, List.Forall₂.cons ⟨htr, rfl⟩ ?_⟩
+        rw [List.forall₂_map_left_iff, List.forall₂_map_right_iff]
+        exact List.Forall₂.imp (fun _ _ hab => ⟨hab, rfl⟩) hr
+    · rw [if_neg hr0, if_neg hr0]
+      refine ⟨?_, List.Forall₂.cons ⟨hb, rfl⟩ ih.2⟩
+      dsimp only
+      rw [ih.1]
+
+theorem rollback_rel (now : Nat) {l1 : List (Brk (Arr Cnt) × Bool)} {l2 : List (Brk Hist × Bool)}
+    (h : List.Forall₂ (RelP now) l1 l2) :
+    (rollback l1).2 = (rollback l2).2 ∧ List.Forall₂ (RelB now) (rollback l1).1 (rollback l2).1 := by
+  induction h with
+  | nil => exact ⟨rfl, List.Forall₂.nil⟩
+  | @cons p q r1 r2 hb hr ih =>
+    obtain ⟨⟨id1, rule1, st1, nr1, cp1, a⟩, k1⟩ := p
+    obtain ⟨⟨id2, rule2, st2, nr2, cp2, h⟩, k2⟩ := q
+    obtain ⟨⟨e1, e2, e3, e4, e5, hw⟩, hk⟩ := hb
+    dsimp only at e1 e2 e3 e4 e5 hw hk
+    subst e1 e2 e3 e4 e5 hk
+    simp only [rollback]
+    rw [← ih.1]
+    split_ifs
+    · exact ⟨rfl, List.Forall₂.cons ⟨rfl, rfl, rfl, rfl, rfl, hw⟩ ih.2⟩
+    · exact ⟨rfl, List.Forall₂.cons ⟨rfl, rfl, rfl, rfl, rfl, hw⟩ ih.2⟩
+
+theorem completeAll_rel (res : String) (now0 now rt : Nat) (err : Bool) (hle : now0 ≤ now) (h0 : 0 < now)
+    {l1 : List (Brk (Arr Cnt))} {l2 : List (Brk Hist)} (h : List.Forall₂ (RelB now0) l1 l2) :
+    (completeAll laOps res now rt err l1).2 = (completeAll histOps res now rt err l2).2 ∧
+      List.Forall₂ (RelB now) (completeAll laOps res now rt err l1).1 (completeAll histOps res now rt err l2).1 := by
+  induction h with
+  | nil => exact ⟨rfl, List.Forall₂.nil⟩
+  | @cons b1 b2 r1 r2 hb hr ih =>
+    have hres : b2.rule.res = b1.rule.res := by rw [hb.rule]
+    obtain ⟨hc2, hcr⟩ := onComplete_rel hb now rt err hle h0
+    have hid : b2.id = b1.id := hb.id.symm
+    simp only [completeAll]
+    rw [hres, ← hc2, hid, ← ih.1]
+    by_cases hr0 : b1.rule.res = res
+    · rw [if_pos hr0, if_pos hr0]
+      exact ⟨rfl, List.Forall₂.cons hcr ih.2⟩
+    · rw [if_neg hr0, if_neg hr0]
+      exact ⟨rfl, List.Forall₂.cons (hb.mono hle) ih.2⟩
+
+structure RelS (s1 : Sys (Arr Cnt)) (s2 : Sys Hist) : Prop where
+  now : s1.now = s2.now
+  pos : 0 < s1.now
+  live : s1.live = s2.live
+  brs : List.Forall₂ (RelB s1.now) s1.brs s2.brs
+
+/-- the clock never goes backwards along the history -/
+def Timed : Nat → List Op → Prop
+  | _, [] => True
+  | now, .clock t :: r => now ≤ t ∧ Timed t r
+  | now, _ :: r => Timed now r
+
+theorem step_rel {s1 : Sys (Arr Cnt)} {s2 : Sys Hist} (rel : RelS s1 s2) (o : Op)
+    (hclk : ∀ t, o = .clock t → s1.now ≤ t) :
+    (step laOps s1 o).2 = (step histOps s2 o).2 ∧ RelS (step laOps s1 o).1 (step histOps s2 o).1 := by
+  obtain ⟨now1, brs1, live1⟩ := s1
+  obtain ⟨now2, brs2, live2⟩ := s2
+  obtain ⟨hnow, hpos, hlive, hbrs⟩ := rel
+  dsimp only at hnow hpos hlive hbrs hclk
+  subst hnow hlive
+  cases o with
+  | clock t =>
+    have hle := hclk t rfl
+    exact ⟨rfl, ⟨rfl, lt_of_lt_of_le hpos hle, rfl, List.Forall₂.imp (fun _ _ hab => hab.mono hle) hbrs⟩⟩
+  | entry id res =>
+    obtain ⟨hc2, hcr⟩ := checkPass_rel res now1 now1 hbrs
+    have hdec : (checkPass res now1 brs2).2.1 = (checkPass res now1 brs1).2.1 := by rw [hc2]
+    have hevs : (checkPass res now1 brs2).2.2 = (checkPass res now1 brs1).2.2 := by rw [hc2]
+    simp only [step, doEntry]
+    rw [hdec, hevs]
+    cases hd : (checkPass res now1 brs1).2.1 with
+    | none =>
+      dsimp only
+      refine ⟨rfl, ⟨rfl, hpos, rfl, ?_⟩⟩
+      dsimp only
+      rw [List.forall₂_map_left_iff, List.forall₂_map_right_iff]
+      exact List.Forall₂.imp (fun _ _ hab => hab.1) hcr
+    | some k =>
+      dsimp only
+      obtain ⟨hr2, hrr⟩ := rollback_rel now1 hcr
+      rw [← hr2]
+      exact ⟨rfl, ⟨rfl, hpos, rfl, hrr⟩⟩
+  | exit id err =>
+    simp only [step, doExit]
+    cases hf : live1.find? (fun x => decide (x.id = id)) with
+    | none => exact ⟨rfl, ⟨rfl, hpos, rfl, hbrs⟩⟩
+    | some e =>
+      dsimp only
+      obtain ⟨hc2, hcr⟩ := completeAll_rel e.res now1 now1 (now1 - e.start) err (le_refl _) hpos hbrs
+      rw [← hc2]
+      exact ⟨rfl, ⟨rfl, hpos, rfl, hcr⟩⟩
+
+theorem run_rel {s1 : Sys (Arr Cnt)} {s2 : Sys Hist} (rel : RelS s1 s2) (ops : List Op) (ht : Timed s1.now ops) :
+    (run laOps s1 ops).2 = (run histOps s2 ops).2 ∧ RelS (run laOps s1 ops).1 (run histOps s2 ops).1 := by
+  induction ops generalizing s1 s2 with
+  | nil => exact ⟨rfl, rel⟩
+  | cons o os ih =>
+    have hclk : ∀ t, o = .clock t → s1.now ≤ t := by
+      intro t ht'; subst ht'; exact ht.1
+    obtain ⟨h2, hr⟩ := step_rel rel o hclk
+    have ht' : Timed (step laOps s1 o).1.now os := by
+      cases o with
+      | clock t => exact ht.2
+      | entry id res =>
+        have : (step laOps s1 (.entry id res)).1.now = s1.now := by
+          simp only [step, doEntry]; split <;> rfl
+        rw [this]; exact ht
+      | exit id err =>
+        have : (step laOps s1 (.exit id err)).1.now = s1.now := by
+          simp only [step, doExit]; split <;> rfl
+        rw [this]; exact ht
+    obtain ⟨i2, ir⟩ := ih hr ht'
+    simp only [run]
+    exact ⟨by rw [h2, i2], ir⟩
+
+theorem rule_geometry_pos (r : Rule) (h : 0 < r.statI) : 0 < r.n ∧ 0 < r.L := by
+  unfold Rule.L Rule.n
+  split_ifs with hc
+  · exact ⟨Nat.one_pos, by simpa using h⟩
+  · have hb : r.buckets ≠ 0 := fun h0 => hc (Or.inl h0)
+    have hd : r.statI % r.buckets = 0 := by
+      by_contra h1; exact hc (Or.inr h1)
+    have hbpos : 0 < r.buckets := Nat.pos_of_ne_zero hb
+    have hdvd : r.buckets ∣ r.statI := Nat.dvd_of_mod_eq_zero hd
+    exact ⟨hbpos, Nat.div_pos (Nat.le_of_dvd h hdvd) hbpos⟩
+
+theorem new_rel (id : Nat) (r : Rule) (now : Nat) (h : 0 < r.statI) : RelB now (Brk.new id r now) (Brk.newAbs id r) := by
+  obtain ⟨hn, hL⟩ := rule_geometry_pos r h
+  exact ⟨rfl, rfl, rfl, rfl, rfl, mk_R _ _ _ hn hL⟩
+
 end Sentinel.CB
